@@ -11,6 +11,11 @@ abbrev PPc.alive (p : PPc) : Prop := p ≠ .off ∧ p ≠ .done
 abbrev SPc.inStarting (p : SPc) : Prop :=
   p = .starting ∨ p = .sampled ∨ p = .chans ∨ p = .prepared ∨ p = .failing
 abbrev SPc.owner (p : SPc) : Prop := p = .activated ∨ p = .runFailing
+/-- in the select or inside a request closure: the moments an acquisition step may be pending -/
+def LPc.serving : LPc → Bool
+  | .select => true
+  | .req _ => true
+  | _ => false
 abbrev SrcState.running (x : SrcState) : Prop := x = .active ∨ x = .stopping
 
 /-- Invariant of every reachable state (no assumption on the environment). -/
@@ -30,9 +35,12 @@ structure Good (s : St) : Prop where
   started : (s.flag = true ∨ s.rSend > 0) → (s.runOver = true ∨ s.lp.alive ∨ s.sp.owner)
   decided_active : s.kDecided > 0 → s.st = .active
   decided_one : s.kDecided ≤ 1
+  asm_le : s.asm ≤ 1
+  asm_eq : s.asm = if s.opens = true ∧ s.nbClosed = false ∧ s.lp.serving = true then 1 else 0
+  asm_closed : s.opens = true → s.nbClosed = true → (s.lp ≠ .spawned ∧ s.lp ≠ .block ∧ s.sp ≠ .activated)
 
 theorem good_init (o : Bool) : Good (init o) := by
-  constructor <;> simp [init, LPc.alive, LPc.working, PPc.alive, SPc.inStarting, SPc.owner, SrcState.running]
+  constructor <;> simp [init, LPc.alive, LPc.working, PPc.alive, SPc.inStarting, SPc.owner, SrcState.running, LPc.serving]
 
 /-- unfold one step of a fixed event and split its guards -/
 macro "lc_open" hs:ident : tactic => `(tactic| (
@@ -48,12 +56,12 @@ macro "lc_open" hs:ident : tactic => `(tactic| (
 macro "lc_good" : tactic => `(tactic| (
   intro s s' h hs
   obtain ⟨st, sEnter, sp, kEnter, kDecided, kWait, kClean, lp, pp, abortClosed, nbClosed, wg, writing, res, opens, crashed,
-    fuel, flag, rEnter, rSend, rWait, runOver, stopsDone⟩ := s
-  obtain ⟨h1, h2, h3, h4, h5, h6, h7, h8, h9, h10, h11, h12, h13, h14, h15⟩ := h
-  dsimp only at h1 h2 h3 h4 h5 h6 h7 h8 h9 h10 h11 h12 h13 h14 h15
+    fuel, flag, rEnter, rSend, rWait, runOver, stopsDone, asm⟩ := s
+  obtain ⟨h1, h2, h3, h4, h5, h6, h7, h8, h9, h10, h11, h12, h13, h14, h15, h16, h17, h18⟩ := h
+  dsimp only at h1 h2 h3 h4 h5 h6 h7 h8 h9 h10 h11 h12 h13 h14 h15 h16 h17 h18
   lc_open hs
   all_goals (constructor <;> dsimp only <;> (try simp only [deactivate]) <;> (try split) <;>
-    simp_all [LPc.alive, LPc.working, PPc.alive, SPc.inStarting, SPc.owner, SrcState.running] <;> (try omega) <;> (try grind))))
+    simp_all [LPc.alive, LPc.working, PPc.alive, SPc.inStarting, SPc.owner, SrcState.running, LPc.serving] <;> (try omega) <;> (try grind))))
 
 theorem good_callStart : ∀ s s' : St, Good s → step s .callStart = some s' → Good s' := by lc_good
 theorem good_startOk : ∀ s s' : St, Good s → step s .startOk = some s' → Good s' := by lc_good
@@ -163,15 +171,15 @@ theorem goodE_init (o : Bool) : GoodE (init o) := by
 macro "lc_goodE" : tactic => `(tactic| (
   intro s s' h he hok hs
   obtain ⟨st, sEnter, sp, kEnter, kDecided, kWait, kClean, lp, pp, abortClosed, nbClosed, wg, writing, res, opens, crashed,
-    fuel, flag, rEnter, rSend, rWait, runOver, stopsDone⟩ := s
-  obtain ⟨h1, h2, h3, h4, h5, h6, h7, h8, h9, h10, h11, h12, h13, h14, h15⟩ := h
+    fuel, flag, rEnter, rSend, rWait, runOver, stopsDone, asm⟩ := s
+  obtain ⟨h1, h2, h3, h4, h5, h6, h7, h8, h9, h10, h11, h12, h13, h14, h15, h16, h17, h18⟩ := h
   obtain ⟨e1, e2, e3, e4⟩ := he
-  dsimp only [stoppers] at h1 h2 h3 h4 h5 h6 h7 h8 h9 h10 h11 h12 h13 h14 h15 e1 e2 e3 e4
+  dsimp only [stoppers] at h1 h2 h3 h4 h5 h6 h7 h8 h9 h10 h11 h12 h13 h14 h15 h16 h17 h18 e1 e2 e3 e4
   simp only [envOK, stoppers] at hok
   lc_open hs
   all_goals try (have hser := e1 (by omega))
   all_goals (constructor <;> dsimp only [stoppers] <;> (try simp only [deactivate]) <;> (try split) <;>
-    simp_all [LPc.alive, LPc.working, PPc.alive, SPc.inStarting, SPc.owner, SrcState.running] <;> (try omega) <;> (try grind))))
+    simp_all [LPc.alive, LPc.working, PPc.alive, SPc.inStarting, SPc.owner, SrcState.running, LPc.serving] <;> (try omega) <;> (try grind))))
 
 theorem goodE_callStart : ∀ s s' : St, Good s → GoodE s → envOK s .callStart = true → step s .callStart = some s' → GoodE s' := by lc_goodE
 theorem goodE_startOk : ∀ s s' : St, Good s → GoodE s → envOK s .startOk = true → step s .startOk = some s' → GoodE s' := by lc_goodE
@@ -281,7 +289,7 @@ theorem goodW_init (o : Bool) : GoodW (init o) := by simp [GoodW, init, pendingR
 macro "lc_goodW" : tactic => `(tactic| (
   intro s s' hg hw hwf hs
   obtain ⟨st, sEnter, sp, kEnter, kDecided, kWait, kClean, lp, pp, abortClosed, nbClosed, wg, writing, res, opens, crashed,
-    fuel, flag, rEnter, rSend, rWait, runOver, stopsDone⟩ := s
+    fuel, flag, rEnter, rSend, rWait, runOver, stopsDone, asm⟩ := s
   have hex := hg.excl
   clear hg
   dsimp only at hex
@@ -338,7 +346,7 @@ theorem goodW_gotRequest (n : Nat) (w : WEff) : ∀ s s' : St, Good s → GoodW 
 theorem goodW_reply : ∀ s s' : St, Good s → GoodW s → Ev.wf .reply = true → step s .reply = some s' → GoodW s' := by
   intro s s' _ hw _ hs
   obtain ⟨st, sEnter, sp, kEnter, kDecided, kWait, kClean, lp, pp, abortClosed, nbClosed, wg, writing, res, opens, crashed,
-    fuel, flag, rEnter, rSend, rWait, runOver, stopsDone⟩ := s
+    fuel, flag, rEnter, rSend, rWait, runOver, stopsDone, asm⟩ := s
   simp only [GoodW] at hw ⊢
   unfold step at hs
   dsimp only at hs
